@@ -194,13 +194,20 @@ class Ctx:
                     self.known_hits.append(match)
                     print("KNOWN-FINDING: property=%s %s" % (self.pid, k.get("what", match)))
                 return
-        if len(self.violations) >= 25:
-            self.violations.append(None)
-            return
+        self.extra.setdefault("violations_by_clause", {})
+        self.extra["violations_by_clause"][clause] = self.extra["violations_by_clause"].get(clause, 0) + 1
+        if len(self.violations) >= 25 or self.extra["violations_by_clause"][clause] > 6:
+            self.extra["violations_not_listed"] = self.extra.get("violations_not_listed", 0) + 1
+            if not self.violations:
+                pass
+            else:
+                return
         d = os.path.join(ROOT, "replays", self.pid)
         os.makedirs(d, exist_ok=True)
         obj = {"property": self.pid, "clause": clause, "detail": detail, "case": case}
         path = os.path.join(d, jhash(obj) + ".json")
+        if path in self.violations:
+            return
         with open(path, "w") as f:
             json.dump(obj, f, indent=1, default=str)
         self.violations.append(path)
